@@ -52,6 +52,16 @@ theorem cexD2_facts :
     inRange (cexD2.stat 0x100) 0x100 = true := by
   refine ⟨by decide +kernel, by decide +kernel, by decide +kernel⟩
 
+/-- the same history on the repaired shape of `_vbi_cache_put_page` (fixes/C10-put-replaces-all-versions.diff): the store
+    with sub-code 0x100 - a single-version key - deletes every cached page of the number -/
+def cexD2R : Cache :=
+  (List.range 256).foldl (fun c _ => putR (putR c 0x100 1 0 []) 0x100 0x100 0 []) Cache.empty
+
+theorem cexD2R_facts :
+    (cexD2R.slots 0x100).chain.map (·.subno) = [0x100] ∧ (cexD2R.slots 0x100).stat = ⟨1, 0x100, 0x100⟩ ∧
+    cexD2R.nCached = 1 := by
+  refine ⟨by decide +kernel, by decide +kernel, by decide +kernel⟩
+
 /-! ## D5: sub-page number 0x3F7F is looked up exactly inside the walk -/
 
 /-- hex page 1A2 with sub-codes 0x3F7E and 0x3F7F -/
